@@ -601,7 +601,7 @@ def tapinfo_lines(fmt, path, start=1, stop=0, skip=()):
             continue
         m = _LEN.match(line)
         if m and out and not (fmt == 'tzx' and out[-1][1] == 0x15):      # (0x15: that is its sample count)
-            out[-1][2] = int(m.group(1)) + 1
+            out[-1][2] = int(m.group(1))
     return dict(exc=0, lines=out, stderr=err.getvalue())
 
 
